@@ -10,6 +10,10 @@ import (
 
 func init() { props["C12"] = runC12 }
 
+// jsonWrongTyped: values of each JSON type, to stand where a claim of some other type is expected
+var jsonWrongTyped = []*JTree{jN(), jA(), jO(), jS(""), jS("x"), jS("AAAA"), jI(0), jI(-1), jI(70000), {Kind: jBool, B: true}, jA(jN()), jA(jI(1), jI(2)),
+	{Kind: jNumOther, Raw: "0.5"}, {Kind: jNumOther, Raw: "1e3"}, jS("!!!"), jO(jM("a", jI(1)))}
+
 // jdecLine: what the implementation does with a JSON document.
 func jdecLine(text []byte) (line string, c psa.IClaims, ok bool, panicked bool) {
 	var err error
@@ -77,6 +81,26 @@ func runC12(r *Run, rng *Rng, thorough bool) {
 			r.Fail("json-roundtrip", fmt.Sprintf("getter results differ after JSON round trip:\n before: %s\n after:  %s", g1, g2))
 		}
 		deprecatedAliases(r, "own JSON", j)
+		// the same document with one member (of the claims-set or of a component) given a value of another JSON type:
+		// what the typed decoder makes of it, against the model's typed JSON decoder
+		for rep := 0; rep < 2; rep++ {
+			mt := tree.clone()
+			holder := mt
+			if rng.Chance(35) {
+				for _, m := range mt.Mem {
+					if m.Name == "psa-software-components" && m.Val.Kind == jArr && len(m.Val.Kids) > 0 && m.Val.Kids[0].Kind == jObj {
+						holder = m.Val.Kids[rng.Intn(len(m.Val.Kids))]
+					}
+				}
+			}
+			if len(holder.Mem) == 0 {
+				continue
+			}
+			mi := rng.Intn(len(holder.Mem))
+			holder.Mem[mi].Val = Pick(rng, jsonWrongTyped).clone()
+			mline, _, _, _ := jdecLine([]byte(mt.Text()))
+			r.Case(class+"/member-retyped", false, "jdec "+mt.Proto(), mline)
+		}
 		// CBOR -> claims -> JSON -> claims -> CBOR reproduces the bytes
 		b, err := psa.EncodeClaimsToCBOR(c)
 		if err != nil {
